@@ -232,6 +232,9 @@ def rules(chk, db):
     rwrules.check_fd_class(chk, db, 'nop::FdReader', 'reader', 'FD')
     rwrules.check_fd_class(chk, db, 'nop::FdWriter', 'writer', 'FD')
     fd_ownership(chk, db, 'OWN')
+    from .. import copyrules
+    copyrules.check(chk, db, 'CP', {'nop::BufferReader', 'nop::PedanticBufferReader', 'nop::BufferWriter', 'nop::PedanticBufferWriter',
+                                    'nop::ConstexprBufferWriter', 'nop::BoundedReader', 'nop::BoundedWriter'}, minimum=14)
     from . import c16
     c16.rules(chk, db, prefix='B.')
     lanes(chk, db, 'L')
